@@ -398,6 +398,32 @@ def run(ctx):
                 for (sbk, neg) in bool_switches(ng, t["dest"][0]):
                     tr, fa = switch_edges_on_local(ng, sbk)
                     ztests.append((root(q), set(fa if neg else tr)))
+        # `x == Duration::ZERO` / `x != Duration::ZERO`
+        for i, t in ng.calls():
+            m_ = re.search(r"time::Duration as core::cmp::PartialEq>::(eq|ne)$|cmp::PartialEq::(eq|ne)$", callee(t))
+            if m_ and len(t["args"]) == 2 and len(t["dest"]) == 1:
+                which = m_.group(1) or m_.group(2)
+                zero_side = None
+                for k_, a in enumerate(t["args"]):
+                    for og in local_origins(ng, a):
+                        if og[0] == "const" and og[1] and ("ZERO" in str(og[1].get("named", "")) or "promoted" in og[1]):
+                            zero_side = k_
+                if zero_side is None:
+                    continue
+                other = t["args"][1 - zero_side]
+                subj = None
+                for pl in deep_places(ng, other, 4):
+                    r_ = root(pl)
+                    if r_.startswith("field:") or r_.startswith("arg:"):
+                        subj = r_
+                        break
+                if subj is None:
+                    continue
+                for (sbk, neg) in bool_switches(ng, t["dest"][0]):
+                    tr, fa = switch_edges_on_local(ng, sbk)
+                    if neg:
+                        tr, fa = fa, tr
+                    ztests.append((subj, set(tr if which == "eq" else fa)))
         for (mi, mt) in mins:
             for k, a in enumerate(mt["args"]):
                 q = op_place(a)
